@@ -1,12 +1,13 @@
 SPECIFICATION Spec
 CONSTANTS
- MaxP = 47
- MaxQ = 23
- MaxK = 7
+ MaxP = 90
+ MaxQ = 45
+ MaxK = 10
  Margin = 4
- Variants <- V_pqgh
- NaiveMaxP = 11
- Mode = "nbr"
+ Variants <- A_two
+ NaiveMaxP = 17
+ Mode = "acc"
  CheckArith = FALSE
+ SortedBases = TRUE
 INVARIANTS BlockIsDefinition Sound Complete Shape Elements Emit
 CHECK_DEADLOCK FALSE
